@@ -112,6 +112,28 @@ def newDefaultWraps : RW → Bool
   | .bytesBuffer _ => false
   | _ => true
 
+/-! ## histories on a generic transport: `defaultTransport{rw}` over a buffer-like object -/
+
+/-- the wrapped object is itself a byte queue (`s`); `hasRL`: it has `ReadableLen() = s.Len()` -/
+structure DT where
+  s : Buf
+  hasRL : Bool
+deriving DecidableEq, Repr
+
+/-- `defaultTransport.RemainingBytes()` on that object -/
+def dtRemaining (d : DT) : Nat := remainingDefault (if d.hasRL then some (d.s.len : Int) else none)
+
+/-- one operation; handle `T` = the defaultTransport, `B` = the wrapped object itself.
+    Read/Write are the embedded io.ReadWriter (pass through); `Close() error { return nil }`
+    (transport.go:56) does NOT touch the wrapped object; Flush/Open/IsOpen likewise. -/
+def dtStep (d : DT) : Op → DT × Res
+  | .close => (d, .done)
+  | op => ({ d with s := (step d.s op).1 }, (step d.s op).2)
+
+def dtRun (d : DT) : List Op → DT × List Res
+  | [] => (d, [])
+  | op :: ops => ((dtRun (dtStep d op).1 ops).1, (dtStep d op).2 :: (dtRun (dtStep d op).1 ops).2)
+
 /-! ## callback registries (apache.go) -/
 
 inductive CbErr where
